@@ -23,6 +23,7 @@ extern mon_opts_t MO;
 
 void mon_init(int argc, char **argv);
 void mon_finish(void);                 /* dump stats, "DONE" */
+void mon_restart(void);                /* planned restart after the current case (exit 77) */
 
 /* ---- cases ---- */
 extern long mon_case_idx;              /* index of the current/last case */
